@@ -185,6 +185,15 @@ func WriteReplay(property, sub string, c interface{}, note string) {
 	_ = os.WriteFile(path, b, 0o644)
 }
 
+// ClearReplay removes a replay file written for a case that turned out fine
+// (schedule properties write the case before running it: if the race detector
+// ends the process, the file left behind is the offending case).
+func ClearReplay() {
+	if path := os.Getenv("VERIF_REPLAY_OUT"); path != "" {
+		_ = os.Remove(path)
+	}
+}
+
 // Fail writes the replay file for the current case and fails the test.
 func Fail(t TB, property, sub string, c interface{}, format string, args ...interface{}) {
 	t.Helper()
